@@ -3,7 +3,7 @@
 "Same observable behaviour" is not decided.  Claimed: vtable completeness,
 fallback compatibility, EINTR discipline, ENOSYS fallbacks, exclusion list.
 """
-from ..core import (AnalysisBroken, Inliner, canon, strip, last_member, must_pass, relpath, norm_cond, walk, forward)
+from ..core import (names_of, same_value, AnalysisBroken, Inliner, canon, strip, last_member, must_pass, relpath, norm_cond, walk, forward)
 from ..analyses import (is_call, holding, path_to, describe, exits_of, callback_kind, loops, innermost_loop,
                         delta_analysis, is_fail, must_pass_from_block, locksets, held, SIGBLOCK)
 
